@@ -20,4 +20,19 @@ func init() {
 			c.guard("tables/quality", func() { ruleQuality(c) })
 		},
 	})
+	register(&propDef{
+		ID: "C03",
+		Explanation: "guardidx: every constant index (direct, sub-slice, or through a helper summarised as indexing parameter i at parameter j) into a vector produced by bytes|strings.Split*/Fields in packages bed and gff is dominated, on every path, by a length guard that proves the index in range (producer facts + dominating len comparisons; helpers' vector parameters take the minimum bound over their call sites). panicval: from every function that defers a recover-to-error converter (handlePanic), every explicit panic reachable through the call graph carries a value that implements error and is not a runtime.Error, or is conditional on `param == const` and that value is excluded by dominating comparisons at every call site on the way.",
+		NotDecided:  "termination and the one-call-per-line bound (GFF metadata recursion), nil dereferences, failed type assertions, (nil, nil) returns, the FASTQ length check; FASTA/FASTQ readers have no converter (their only reachable explicit panic, Encoding.DecodeTo* default, is configuration-guarded).",
+		Assumptions: []string{"runtime index panics other than on split-field vectors are out of scope", "a converter re-panics exactly non-error and runtime.Error values (checked structurally)"},
+		Run: func(c *Ctx) {
+			c.guard("guardidx", func() { ruleGuardIdx(c, "guardidx", "io/featio/bed", "io/featio/gff"); c.floor("guardidx", 50) })
+			c.guard("panicval", func() {
+				rulePanicVal(c, "panicval", "io/featio/bed", "io/featio/gff")
+				c.floor("panicval/root", 6)
+				c.floor("panicval/converter", 2)
+				c.floor("panicval", 12+6+2)
+			})
+		},
+	})
 }
